@@ -268,6 +268,18 @@ func execHMAC(f []string) string {
 			}
 		})
 		return out
+	case "ucode":
+		// rfc8628.DefaultDeviceStrategy.GenerateUserCode: the user code and its signature, or the signing error
+		n, _ := strconv.Atoi(hmacKV(f, "len"))
+		ds := &rfc8628.DefaultDeviceStrategy{Enigma: enigma, Config: &fosite.Config{UserCodeLength: n}}
+		code, sig, err := ds.GenerateUserCode(ctx)
+		if err != nil {
+			if code != "" || sig != "" {
+				return "error-with-code"
+			}
+			return classifyHMAC(err)
+		}
+		return fmt.Sprintf("ok len=%d sig=%v", len([]rune(code)), sig != "")
 	case "mint":
 		// supporting evidence only: N real mints with the real crypto/rand; length of the random part, uniqueness
 		n, _ := strconv.Atoi(hmacKV(f, "n"))
@@ -672,6 +684,13 @@ func HMACCases(e *Emitter, r *Rand, tier string) {
 					}
 				}
 			}
+		}
+	}
+
+	// 1b. user codes (rfc8628): every secret length x configured length; a signing failure must surface
+	for _, sec := range [][]byte{nil, S16, S31, M32, M64, g.bytes(33), g.bytes(1)} {
+		for _, n := range []int{0, 1, 8, 12} {
+			g.e.Do(fmt.Sprintf("hmac\tucode\tg=%s\trot=\te=0\th=default\tlen=%d", hex.EncodeToString(sec), n))
 		}
 	}
 
